@@ -2,6 +2,8 @@
 // nin names become explicit inputs and the rest explicit outputs of one edge built directly in a
 // State (the manifest syntax cannot spell every byte, the graph can hold them).
 // mode c: command = ARGV $in -- $out     mode n: command = ARGV $in_newline
+// mode r / q: rspfile_content = $in -- $out  /  $in_newline -- $out ; what is printed is ARGV followed by the evaluated
+//   rspfile_content (newlines -> blanks): the text a response file holds is read by shells too (xargs, $(cat f), @file)
 // stdout: hex of the real Edge::EvaluateCommand() per line.
 #include <stdio.h>
 #include <iostream>
@@ -39,8 +41,14 @@ static int probe_shellesc(int argc, char** argv) {
     EvalString cmd;
     cmd.AddText(tool + " ");
     if (mode == "c" || mode == "d") { cmd.AddSpecial("in"); cmd.AddText(" -- "); cmd.AddSpecial("out"); }
+    else if (mode == "r" || mode == "q") { cmd.AddText("@x.rsp"); }
     else cmd.AddSpecial("in_newline");
     rule->AddBinding("command", cmd);
+    if (mode == "r" || mode == "q") {
+      EvalString rf; rf.AddText("x.rsp"); rule->AddBinding("rspfile", rf);
+      EvalString rc; rc.AddSpecial(mode == "r" ? "in" : "in_newline"); rc.AddText(" -- "); rc.AddSpecial("out");
+      rule->AddBinding("rspfile_content", rc);
+    }
     if (mode == "d") {
       // the usual depfile = $out.d / rspfile = $out.rsp: paths ninja itself opens (unescaped), evaluated before the command
       EvalString df; df.AddSpecial("out"); df.AddText(".d"); rule->AddBinding("depfile", df);
@@ -61,6 +69,12 @@ static int probe_shellesc(int argc, char** argv) {
       std::string c = edge->EvaluateCommand();
       std::string df2 = edge->GetUnescapedDepfile();
       printf("%s %s %s %s\n", Hex(c).c_str(), Hex(df).c_str(), Hex(rf).c_str(), Hex(df2).c_str());
+      continue;
+    }
+    if (mode == "r" || mode == "q") {
+      std::string c = edge->GetBinding("rspfile_content");
+      for (char& ch : c) if (ch == '\n') ch = ' ';
+      printf("%s\n", Hex(tool + " " + c).c_str());
       continue;
     }
     printf("%s\n", Hex(edge->EvaluateCommand()).c_str());
